@@ -32,12 +32,15 @@ def nested_loops(g):
     cur = loop(inner)
     for _ in range(r.choice([1, 1, 2])):
         mid = [g.cmd(), cur, g.cmd()]
-        if r.random() < 0.5: mid.insert(r.choice([0, 1, 2, 3]), jump(["continue", "break"]))
+        labelled = r.random() < 0.4      # a label directly in front of the inner loop (an entry point, not a name for the loop)
+        if labelled: mid.insert(1, ("label", "%sL%d" % (g.prefix, g.nlab + 1), None))
+        if r.random() < 0.5: mid.insert(r.choice([0, 1, 2, 3] if not labelled else [0, 1, 3, 4]), jump(["continue", "break"]))
         if r.random() < 0.35:
             # a switch between the loops: break leaves the switch, also from its default case
             cases = [(1, [g.cmd()]), (None, [g.cmd(), jump(["break"]), g.cmd()]), (2, [cur, jump(["break"]), g.cmd()])]
             r.shuffle(cases)
-            mid = [g.cmd(), ("switch", ("var", "VAR_A"), cases), g.cmd()]
+            mid = [g.cmd(), ("switch", ("var", "VAR_A"), cases), g.cmd()]; labelled = False
+        if labelled: g.nlab += 1; g.labels.append("%sL%d" % (g.prefix, g.nlab))
         cur = loop(mid)
     return [g.cmd(), cur, g.cmd()]
 
@@ -75,7 +78,7 @@ def gen_C02(rnd, n, tier):
     for i in range(n):
         g = G(rnd, autovar=(i % 4 == 0))
         c = g.cond(0, maxd=rnd.choice([1, 2, 3, 3, 4] if tier == "quick" else [2, 3, 4, 5]))
-        form = rnd.choice(["if", "if", "ifelse", "while", "do", "elif", "iflast"])
+        form = rnd.choice(["if", "if", "ifelse", "while", "do", "elif", "iflast", "chain"])
         if form == "if": body = [("if", [(c, [("cmd", "yes", "yes")])], None), ("cmd", "after", "after")]
         elif form == "iflast": body = [("cmd", "before", "before"), ("if", [(c, [("cmd", "yes", "yes")])], None)]   # a false condition returns
         elif form == "ifelse": body = [("if", [(c, [("cmd", "yes", "yes")])], [("cmd", "no", "no")])]
@@ -83,6 +86,15 @@ def gen_C02(rnd, n, tier):
             c2 = g.cond(0, maxd=2)
             body = [("if", [(c2, [("cmd", "first", "first")]), (c, [("cmd", "yes", "yes")])], [("cmd", "no", "no")])]
         elif form == "while": body = [("while", c, [("cmd", "body", "body")]), ("cmd", "after", "after")]
+        elif form == "chain":
+            # if / elif / elif / else that looks like a jump table over one var - except for one arm
+            v = rnd.choice(["VAR_A", "VAR_B"]); o = "VAR_B" if v == "VAR_A" else "VAR_A"
+            arms = [("leaf", ("var", v, "op", "==", k)) for k in (1, 2, 3)]
+            dev = rnd.choice([("leaf", ("var", v, "op", "!=", 2)), ("leaf", ("var", o, "op", "==", 2)), ("leaf", ("var", v, "opv", "==", 2)), ("leaf", ("flag", "FLAG_A", "")), ("leaf", ("var", v, "op", ">=", 2)), arms[1]])
+            arms[rnd.choice([0, 1, 1, 1, 2])] = dev
+            c = ("and", arms[0], ("and", arms[1], arms[2]))
+            body = [("if", [(arms[0], [("cmd", "first", "first")]), (arms[1], [("cmd", "second", "second")]), (arms[2], [("cmd", "third", "third")])],
+                     [("cmd", "other", "other")] if rnd.random() < 0.7 else None), ("cmd", "after", "after")]
         else: body = [("do", [("cmd", "body", "body")], c), ("cmd", "after", "after")]
         opt = rnd.random() < 0.5
         cs = ctrl_case(body, [], opt, tag=form)
@@ -281,6 +293,9 @@ def gen_C11(rnd, n, tier):
             c = retext(c)
         form = rnd.choice(["if", "while", "do", "switch"])
         if form == "if": body = [("if", [(c, [("cmd", "yes", "yes")])], [("cmd", "no", "no")]), ("cmd", "after", "after")]
+        elif form == "while" and i % 3 == 0:
+            inner = ("while", c, [("cmd", "body", "body"), ("if", [(("leaf", ("flag", "FLAG_Q", "")), [("continue",)])], None), ("cmd", "rest", "rest")])
+            body = [("while", ("leaf", ("var", "VAR_W", "op", "<", 2)), [("cmd", "outer", "outer"), ("label", "Reroll", None), inner, ("cmd", "endround", "endround")]), ("cmd", "after", "after")]
         elif form == "while": body = [("while", c, [("cmd", "body", "body")]), ("cmd", "after", "after")]
         elif form == "do": body = [("do", [("cmd", "body", "body")], c), ("cmd", "after", "after")]
         else:
